@@ -14,7 +14,7 @@ CHECKS = {
          "Trusted: harness reading of the table via get_leases. In the second in which a lease expires only the reading-independent part is judged (a refusal needs every pool address held by another client whose lease may still be running); a message naming two different addresses (ciaddr and option 50) names neither. The same command enumerates pools of 1..150 addresses (thorough: every size to 200) with every address but one held, over every position of the free address.", "3/C09"),
  "C10": ("HIST", "property testing over generated histories: bounds + reply/record relation", "exploration",
          "Every successful reply in every generated history carries option 51 within [300,86400] and the stored row runs exactly that long and does not expire early.",
-         "Bounds are the tree's defaults (the config keys that would change them are parsed but unused). A third of the generated requests carry the client's own lease-time wish on either side of the bounds. A second sub-check runs generated policy trees whose apply-* options include lease-time (value / null / values on both sides of the bounds) against parameter lists with and without 51. The same command also captures OFFER/ACK frames from the real erbium-dhcp over a veth pair and compares option 51 with the database row (wire tier; needs namespaces).", "3/C10"),
+         "Bounds are the tree's defaults (the config keys that would change them are parsed but unused). A third of the generated requests carry the client's own lease-time wish on either side of the bounds. A second sub-check runs generated policy trees whose apply-* options include lease-time (value / null / values on both sides of the bounds) against parameter lists with and without 51 (also renewal-time, rebind-time and ipv6-preferred). A third holds the lease file from another connection (write reservation / open read transaction) while the pool allocates: a lease it reports has its record. The same command also captures OFFER/ACK frames from the real erbium-dhcp over a veth pair and compares option 51 with the database row (wire tier; needs namespaces).", "3/C10"),
  "C13": ("HIST", "property testing: frame condition (table before == after unless replied) over generated messages of every type", "exploration",
          "For every generated message of any type / server-id kind on generated lease states: no reply => table unchanged; reply => only for DISCOVER/REQUEST meant for us, only the yiaddr row touched, header echoed, server-id ours.",
          "Malformed server-id lengths and server-id inside DISCOVER are unconstrained (statement silent). A second sub-check runs generated policy trees (apply-server-id as address / null, option values up to the longest an option can carry) against requests with parameter lists of any codes and a maximum message size (option 57): every reply carries a server identifier naming this server, and a message that is not answered leaves the store unchanged.", "3/C13"),
